@@ -1,6 +1,6 @@
 (* Proofs/FieldsProofs.v — tactics and lemmas for the register field views (C17, second half). *)
 From Coq Require Import ZArith Bool List Lia ZifyBool.
-From ArmV Require Import Lib.PyZ Spec.Pseudocode Spec.Expected Proofs.BitLemmas Proofs.BitsOps Proofs.BitsOps2.
+From ArmV Require Import Lib.PyZ Spec.Pseudocode Spec.Expected Proofs.BitLemmas Proofs.SpecFacts Proofs.BitsOps Proofs.BitsOps2.
 From Gen Require Import enums bits_ops shift regviews.
 Open Scope Z_scope.
 
